@@ -252,7 +252,7 @@ def _r1(ctx):
     mit = J.unmap_loops(J.flatten(tree, MACROS, {}))
     ctx.saw(MACROS)
     mloops = [it for it, st in J.walk_items(mit) if it[0] == "for" and J.path(J.unfilter(it[2])[0]) == "network.elements"
-              and any(p_[0] == "lit" and "IDX_ELEM_" in p_[1] for p_ in J.printed(tree, it[3], {}))]
+              and any(p_[0] == "lit" and "IDX_ELEM_" in p_[1] for p_ in J.squeeze(J.printed(tree, it[3], {})))]
     if len(mloops) != 1:
         (ctx.unrec if mloops else ctx.missing)("R1", "macros:IDX_ELEM", (MACROS, 0), f"expected one loop over network.elements defining IDX_ELEM_ macros in the header, found {len(mloops)}")
     else:
@@ -632,5 +632,6 @@ BENIGN = [
     {"name": "eq-any-of-generator", "edits": [
         {"file": SPECIES, "old": '            return (\n                (self.is_electron and o.is_electron)\n                or (\n                    self.is_grain\n                    and o.is_grain\n                    and self.grain_group == o.grain_group\n                    and self.charge == o.charge\n                )\n                or (\n                    self.is_surface\n                    and o.is_surface\n                    and self.surface_group == o.surface_group\n                    and self.charge == o.charge\n                    and self.basename == o.basename\n                )\n                or self.name == o.name\n            )\n', "new": '            return any(self._same(o))\n'},
         {"file": SPECIES, "old": "    def __hash__(self) -> int:\n", "new": '    def _same(self, o):\n        yield self.is_electron and o.is_electron\n        yield self.is_grain and o.is_grain and self.grain_group == o.grain_group and self.charge == o.charge\n        yield self.is_surface and o.is_surface and self.surface_group == o.surface_group and self.charge == o.charge and self.basename == o.basename\n        yield self.name == o.name\n\n    def __hash__(self) -> int:\n'}]},
+    {"name": "header-lines-by-macro", "file": MACROS, "old": "{% for spec in network.elements %}\n#define IDX_ELEM_{{ spec.element_count.keys() | first }} {{ loop.index0 }}", "new": "{% macro define_index(label, slot) %}#define IDX_{{ label }} {{ slot }}{% endmacro %}\n{% for spec in network.elements %}\n{{ define_index(\"ELEM_\" ~ (spec.element_count | first), loop.index0) }}"},
     {"name": "eq-disjuncts-reordered", "file": SPECIES, "old": "                (self.is_electron and o.is_electron)\n                or (", "new": "                self.name == o.name\n                or (self.is_electron and o.is_electron)\n                or ("},
 ]
